@@ -107,6 +107,9 @@ def _adapt_to_user_mode(output: ExtendedModeValue) -> UserModeValue:
         return tuple(_adapt_to_user_mode(elt) for elt in output)
     if isinstance(output, np.ndarray):
         return output
+    if isinstance(output, (bool, int, float)):
+        # a Python value returned by the function body: the converter returns the promoted Constant
+        return autocast.cast_pyvalue_to_os_tensor(output).value
     raise TypeError(f"Unexpected type {type(output)}.")
 
 
